@@ -1846,12 +1846,16 @@ func (env *LEnv) bind(fun, args *LVal) (*LEnv, *LVal) {
 	narg := len(args.Cells)
 
 	funenv := fun.funEnv().Copy()
+	// A formal that cannot be bound (true, false, a keyword, a non-symbol) is
+	// an error of the call, like the other binding failures; without this the
+	// refusal of Put was dropped and the argument silently vanished.
+	var unbindable string
 	putArg := func(k, v *LVal) {
-		funenv.Put(k, v)
+		if lerr := funenv.Put(k, v); lerr.Type == LError && unbindable == "" {
+			unbindable = (*ErrorVal)(lerr).ErrorMessage()
+		}
 	}
-	putVarArg := func(k *LVal, v *LVal) {
-		funenv.Put(k, v)
-	}
+	putVarArg := putArg
 	var builtinArgs []*LVal
 	if funenv == nil {
 		// FIXME?: Builtins don't have lexical envs.  We just store the args in
@@ -1891,6 +1895,9 @@ func (env *LEnv) bind(fun, args *LVal) (*LEnv, *LVal) {
 	}
 	if !argsp.IsEOF() {
 		return nil, env.Errorf("invalid number of arguments: %d", narg)
+	}
+	if unbindable != "" {
+		return nil, env.Errorf("invalid formal argument: %s", unbindable)
 	}
 	if funenv == nil {
 		return env, QExpr(builtinArgs)
